@@ -522,7 +522,8 @@ def check_pput(ctx, u, R):
                 r = relation(cond, True)
                 if r:
                     a, op, b = inl.c(r[0]), r[1], inl.c(r[2])
-                    is_gt = (a in ends and op == '>' and b == 'this.data.size()') or (b in ends and op == '<' and a == 'this.data.size()')
+                    # `end >= size()` grows in the same cases plus a no-op resize to the current size
+                    is_gt = (a in ends and op in ('>', '>=') and b == 'this.data.size()') or (b in ends and op in ('<', '<=') and a == 'this.data.size()')
                     if is_gt and then is not None:
                         for c in walk(then):
                             if c.get('kind') == 'CXXMemberCallExpr' and call_name(c) in ('resize', 'extend_to'):
